@@ -1,6 +1,7 @@
 #!/bin/bash
 # tryseed.sh <patch file> <prop> [<prop> ...]: apply a seeded change to /repo, run the quick checks, undo it straight afterwards
 patch=$1; shift
+export VERIF_NO_EVIDENCE=1
 cd /repo
 if ! git diff --quiet; then echo "/repo has uncommitted changes"; exit 9; fi
 git apply --whitespace=nowarn "$patch" || { echo "patch does not apply"; exit 9; }
